@@ -61,16 +61,35 @@ def install_natives(m):
         mach.store(this + 16, I64, new_cap)
         return None
 
+    def lexcmp(xs, ys, tail):
+        """sign of the first differing byte pair (unsigned), else tail; concrete when the bytes are."""
+        r = tail
+        for x, y in reversed(list(zip(xs, ys))):
+            if isinstance(x, int) and isinstance(y, int):
+                if x != y:
+                    r = (1 if x > y else -1) & 0xFFFFFFFF
+                continue
+            bx, by = llsym.bv(x, 8), llsym.bv(y, 8)
+            rr = r if not isinstance(r, int) else z3.BitVecVal(r, 32)
+            r = z3.If(bx == by, rr, z3.If(z3.ULT(bx, by), z3.BitVecVal(0xFFFFFFFF, 32), z3.BitVecVal(1, 32)))
+        return r
+
     def memcmp(mach, a, b, n):
         if not isinstance(n, int):
             raise EngineLimit("memcmp with symbolic length")
-        for i in range(n):
-            x, y = mach.readbyte(a + i), mach.readbyte(b + i)
-            if not (isinstance(x, int) and isinstance(y, int)):
-                raise EngineLimit("memcmp on symbolic bytes")
-            if x != y:
-                return (1 if x > y else -1) & 0xFFFFFFFF
-        return 0
+        return lexcmp([mach.readbyte(a + i) for i in range(n)], [mach.readbyte(b + i) for i in range(n)], 0)
+
+    def str_compare_cstr(mach, this, cstr):
+        """basic_string::compare(const char*) over the libstdc++ layout {ptr, length, ...}; lengths concrete."""
+        I64 = llsym.T("int", n=64)
+        p, n = mach.load(this, I64), llsym.small_int(mach.load(this + 8, I64))
+        if not isinstance(p, int):
+            raise EngineLimit("basic_string::compare on a string at a symbolic address")
+        k = strlen(mach, cstr)
+        c = min(n, k)
+        d = n - k
+        tail = 0 if d == 0 else ((1 if d > 0 else -1) & 0xFFFFFFFF)
+        return lexcmp([mach.readbyte(p + i) for i in range(c)], [mach.readbyte(cstr + i) for i in range(c)], tail)
 
     def strlen(mach, p):
         n = 0
@@ -94,6 +113,7 @@ def install_natives(m):
     m.natives["@_ZdlPvm"] = lambda mach, p, n: None
     m.natives["@_ZNSt7__cxx1112basic_stringIcSt11char_traitsIcESaIcEE9_M_createERmm"] = m_create
     m.natives["@_ZNSt7__cxx1112basic_stringIcSt11char_traitsIcESaIcEE9_M_mutateEmmPKcm"] = m_mutate
+    m.natives["@_ZNKSt7__cxx1112basic_stringIcSt11char_traitsIcESaIcEE7compareEPKc"] = str_compare_cstr
     m.natives["@memcmp"] = memcmp
     m.natives["@bcmp"] = memcmp
     m.natives["@strlen"] = strlen
